@@ -409,7 +409,8 @@ convert_drcs(cache_page *vtp, uint8_t *raw)
 			break;
 
 		case DRCS_MODE_12_10_2:
-			if (vtp->data.drcs.invalid & (3ULL << i)) {
+			if (i + 1 >= DRCS_PTUS_PER_PAGE
+			    || (vtp->data.drcs.invalid & (3ULL << i))) {
 				vtp->data.drcs.invalid |= (3ULL << i);
 				d += 60;
 			} else
@@ -426,7 +427,8 @@ convert_drcs(cache_page *vtp, uint8_t *raw)
 			break;
 
 		case DRCS_MODE_12_10_4:
-			if (vtp->data.drcs.invalid & (15ULL << i)) {
+			if (i + 3 >= DRCS_PTUS_PER_PAGE
+			    || (vtp->data.drcs.invalid & (15ULL << i))) {
 				vtp->data.drcs.invalid |= (15ULL << i);
 				d += 60;
 			} else
